@@ -396,6 +396,33 @@ def check_persist(ctx, kind, card, fmt, sdir):
     if got != card:
         rec.violation("persist/%s/%s" % (_cshape(card), "dropped" if got is None else "altered"),
                       "%s %s: %r came back as %r" % (kind, fmt, card, got), case)
+        return
+    # one writer object used for a whole session: the cardinality is written, changed, written again by the same
+    # writer (to text and to a file); what is loaded is the cardinality at the time of the respective save
+    from odml.tools.odmlparser import ODMLWriter, ODMLReader
+    rec.monitor("persist-writer-reuse")
+    try:
+        w = ODMLWriter(fmt)
+        w.to_string(doc) if fmt != "XML" else None
+        w.write_file(doc, path)
+        second = {(1, 2): (2, 5), (2, 5): (1, 2)}.get(card, (1, 2))
+        setattr(o, name, second)
+        if getattr(o, name) != second:
+            return
+        w.write_file(doc, path)
+        back = ODMLReader(fmt, show_warnings=False).from_file(path)
+        o2 = back.sections[0].properties[0] if kind == "val" else back.sections[0].sections[0]
+        got2 = getattr(o2, name)
+        text = w.to_string(doc)
+        back3 = ODMLReader(fmt, show_warnings=False).from_string(text)
+        o3 = back3.sections[0].properties[0] if kind == "val" else back3.sections[0].sections[0]
+        got3 = getattr(o3, name)
+    except Exception as exc:
+        rec.violation("persist/writer-reuse/raised-%s" % type(exc).__name__, "%s %r %s: %r" % (kind, card, fmt, exc), case)
+        return
+    if got2 != second or got3 != second:
+        rec.violation("persist/writer-reuse/stale", "%s %s: changed %r -> %r, the reused writer wrote %r (file) / %r (text)" % (
+            kind, fmt, card, second, got2, got3), case)
 
 
 def check_persist_population(ctx, cards, fmt, sdir):
